@@ -82,6 +82,7 @@ def snapshot(seq) -> dict:
         "n_calls": len(seq._calls), "n_tobuild": len(seq._to_build_calls),
         "calls": tuple(c.name for c in seq._calls), "tobuild": tuple(c.name for c in seq._to_build_calls),
         "vars": tuple(sorted(seq._variables)),
+        "qids": tuple(sorted(str(q) for q in seq._qids)),
     }
     return {"chans": chans, "bref": bref, "flags": flags}
 
